@@ -37,7 +37,8 @@ type tierParams struct {
 	flipBytes int // byte offsets per value for bit flips (0 = all)
 	flipCap   int // encodings longer than this get sampled offsets even in the thorough tier
 	truncAll  bool
-	budget    time.Duration // wall budget per type for flips (so one slow decoder cannot eat the tier)
+	budget    time.Duration // wall budget per value for flips / truncations (so one slow decoder cannot eat the tier)
+	mutBudget time.Duration // wall budget per value for the semantic mutation classes (the malformed classes always run)
 }
 
 func Main(args []string) int {
@@ -50,14 +51,15 @@ func Main(args []string) int {
 	list := fs.Bool("list", false, "list captured types and exit")
 	only := fs.String("only", "", "restrict the campaign to types containing this substring")
 	replay := fs.String("replay", "", "hex encoding to decode with -only type (replay of a reported case)")
+	shard := fs.String("shard", "0/1", "i/n: run the campaign only on the types whose index is i modulo n")
 	if err := fs.Parse(args); err != nil {
 		return 2
 	}
 	seed = *sd
 	thorough = *tier == "thorough"
-	tp := tierParams{vals: 1, perClass: 2, flipBytes: 12, flipCap: 4096, budget: 1500 * time.Millisecond}
+	tp := tierParams{vals: 1, perClass: 2, flipBytes: 12, flipCap: 4096, budget: 700 * time.Millisecond, mutBudget: 1200 * time.Millisecond}
 	if thorough {
-		tp = tierParams{vals: 3, perClass: 0, flipBytes: 0, flipCap: 3000, truncAll: true, budget: 40 * time.Second}
+		tp = tierParams{vals: 3, perClass: 0, flipBytes: 0, flipCap: 3000, truncAll: true, budget: 12 * time.Second, mutBudget: 25 * time.Second}
 	}
 
 	want := map[string]bool{}
@@ -111,7 +113,14 @@ func Main(args []string) int {
 			return 2
 		}
 	}
-	crafted()
+	var shI, shN int
+	if _, err := fmt.Sscanf(*shard, "%d/%d", &shI, &shN); err != nil || shN < 1 {
+		fmt.Fprintln(os.Stderr, "bad -shard")
+		return 2
+	}
+	if shI == 0 {
+		crafted()
+	}
 
 	pool := buildPool()
 	byType := map[string][]*capture{}
@@ -120,6 +129,9 @@ func Main(args []string) int {
 	}
 	for ti, t := range typesSorted() {
 		if *only != "" && !strings.Contains(t, *only) {
+			continue
+		}
+		if ti%shN != shI {
 			continue
 		}
 		campaign(t, byType[t], tp, pool, uint64(ti))
@@ -164,7 +176,15 @@ func campaign(typ string, cs []*capture, tp tierParams, pool *leafPool, stream u
 			}
 		}
 		seenSite := map[string]bool{}
+		mutStart := time.Now()
+		counted := map[string]bool{}
+		for _, k := range malformedClasses {
+			counted[k] = true
+		}
 		for _, m := range structural(c, tp.perClass, rng, pool, cs, true) {
+			if !counted[m.cls] && time.Since(mutStart) > tp.mutBudget {
+				continue
+			}
 			o := c.try(m.data)
 			ev := map[string]any{"typ": typ, "name": c.name, "grp": c.group, "cls": m.cls, "var": m.variant, "path": m.path, "kind": m.kind,
 				"res": o.res, "valid": o.valid, "regen": o.regen, "same": o.same, "canon": o.canon, "panic": o.panic_, "iface": c.iface}
@@ -189,6 +209,9 @@ func campaign(typ string, cs []*capture, tp tierParams, pool *leafPool, stream u
 }
 
 func roundTrip(c *capture) {
+	// honest values: proofs are also verified after the round trip; mutated ones only get the structural predicate
+	prfVerifyInValid = true
+	defer func() { prfVerifyInValid = false }()
 	ev := map[string]any{"typ": c.typ, "name": c.name, "grp": c.group, "len": len(c.enc), "iface": c.iface}
 	var e2 []byte
 	var err error
